@@ -138,6 +138,11 @@ def cargo_build(pkgs):
     for p in pkgs:
         cmd += ["-p", p]
     r = run(cmd, cwd=HARNESS, timeout=3600)
+    for _ in range(6):
+        # another work stream may be half-way through creating its member crate
+        if r.returncode != 0 and "failed to load manifest for workspace member" in r.stdout:
+            time.sleep(10)
+            r = run(cmd, cwd=HARNESS, timeout=3600)
     if r.returncode != 0 and "Cargo.lock" in r.stdout and "needs to be updated" in r.stdout:
         shutil.copy(lock_src, lock_dst)
         r = run(cmd, cwd=HARNESS, timeout=3600)
